@@ -71,6 +71,16 @@ def gen_cases(ctx, rng):
         batch = [wire("POST", "/proxies", {"name": "p", "listen": "127.0.0.1:%d" % ps[0], "upstream": "u:1"}), wire("DELETE", "/proxies/p"),
                  wire("POST", "/proxies", {"name": "p", "listen": "127.0.0.1:%d" % ps[1], "upstream": "u:1"}), wire("DELETE", "/proxies/p")]
         add("create_delete_mixed", {"setup": [], "batch": batch, "probes": ["127.0.0.1:%d" % x for x in ps], "rounds": rounds, "churn": []})
+    # (g) concurrent updates of ONE toxic that set different fields, some bodies arriving slowly (in two parts): every one-at-a-time order
+    #     gives the same result - all three fields set
+    for r in range(3):
+        ps = ports(1)
+        setup = [wire("POST", "/proxies", {"name": "p", "listen": "127.0.0.1:%d" % ps[0], "upstream": "127.0.0.1:9"}),
+                 wire("POST", "/proxies/p/toxics", {"type": "latency", "name": "a", "attributes": {"latency": 1, "jitter": 1}})]
+        batch = [dict(wire("PATCH", "/proxies/p/toxics/a", {"attributes": {"latency": 100}}), pause_ms=[12, 3, 0][r]),
+                 dict(wire("PATCH", "/proxies/p/toxics/a", {"attributes": {"jitter": 5}}), pause_ms=[0, 3, 6][r]),
+                 dict(wire("PATCH", "/proxies/p/toxics/a", {"toxicity": 0.5}), pause_ms=[4, 0, 12][r])]
+        add("toxic_update_disjoint", {"setup": setup, "batch": batch, "probes": [], "rounds": rounds, "churn": []})
     # (f) enable/disable/update against delete (finding F9): one round per case, own ports (a zombie keeps its port)
     for r in range(24 if ctx.tier == "quick" else 300):
         ps = ports(1)
@@ -161,6 +171,13 @@ def judge(case, rounds):
                 return ("not-atomic", "round %d: mixed toxic operations answered %s" % (ri, st))
             if sorted(tox) != ["b", "c"] or tox["b"]["attrs"][0][1] not in (7, 9) or tox["c"]["attrs"][0][1] not in (10, 20):
                 return ("not-atomic", "round %d: final toxics %s are not those of any one-at-a-time order" % (ri, json.dumps(list(tox.values()), default=str)[:200]))
+        elif fam == "toxic_update_disjoint":
+            tox = {t["name"]: t for p in plist for t in p["toxics"]}
+            a = tox.get("a")
+            got = (dict(a["attrs"]), a["toxicity"]) if a else None
+            if st != [200, 200, 200] or got != ({"latency": 100, "jitter": 5}, 0.5):
+                return ("not-atomic", "round %d: concurrent updates of one toxic setting latency=100 / jitter=5 / toxicity=0.5 answered %s and left %s: "
+                        "an update was lost (no one-at-a-time order gives this)" % (ri, st, json.dumps(got, default=str)))
         elif fam == "create_delete_mixed":
             if zombies:
                 return ("not-atomic", "round %d: a listener nobody lists is accepting on %s" % (ri, zombies))
@@ -267,7 +284,8 @@ def run(ctx):
         "evaluations": nrounds, "distinct_nontrivial": len(cases),
         "rule": "batches of 3-8 requests released together on the in-process server from as many goroutines, with connection churn on the proxy: "
                 "creates of one name / on one port, deletes of one proxy, toxic adds of one name / distinct names, mixed toxic add/update/remove, "
-                "create/delete mixed (checked against a sequential spec over all real-time-consistent orders), enable vs delete; each batch repeated "
+                "create/delete mixed (checked against a sequential spec over all real-time-consistent orders), updates of one toxic setting different "
+                "fields with bodies arriving in two parts, enable vs delete; each batch repeated "
                 "on fresh servers; a 10 s watchdog reports requests that never return; plus the lock-up witness under virtual time; "
                 "distinct = batches, evaluations = rounds",
         "traces_validated_against_impl": nrounds, "input_distribution": stats, "failing_batches": len(fails),
